@@ -261,3 +261,9 @@ def send_always_wraps_with_the_timer_value(g, plain, mac_cbc, enc, mac, tag):
     assert isinstance(w, SecureWrapper) and w.secure_session_id == 0 and w.serial_number == XKNX_SERIAL_NUMBER
     assert int.from_bytes(w.sequence_information, "big") == v and w.message_tag == tag
     assert w.encrypted_data == enc and w.message_authentication_code == mac
+
+
+ASSUMPTIONS = [
+    "AES primitives uninterpreted (arbitrary octets); KNXIPFrame.from_knx/to_knx per their own contracts (C20/C21)",
+    "loop.time() is monotonic; call_later scheduling (reschedule) is a recording stub: notify delays are not verified",
+]
